@@ -158,14 +158,17 @@ fn to_deltas(code_map: &CodeMap, semtoks: Vec<SemTok>) -> Vec<SemanticToken> {
                     line,
                     column: length,
                 };
-                result.push((
-                    SpanLoc {
-                        file: location.file.clone(),
-                        begin,
-                        end,
-                    },
-                    ty,
-                ));
+                // A span that covers several lines may contain empty lines: there is nothing to highlight on those
+                if end.column > begin.column {
+                    result.push((
+                        SpanLoc {
+                            file: location.file.clone(),
+                            begin,
+                            end,
+                        },
+                        ty,
+                    ));
+                }
 
                 if line == location.end.line {
                     break;
